@@ -1206,6 +1206,38 @@ func ruleLoopFresh(r *Run) {
 						invariant = !l.Body[ins.Block()]
 					}
 				}
+				// built in the loop, but from pointers made once outside it (a shared *TableCellProperties)
+				sharedField := ""
+				if !invariant {
+					if ld, ok := e.(*ssa.UnOp); ok {
+						if al, ok := ld.X.(*ssa.Alloc); ok && al.Referrers() != nil {
+							for _, u := range *al.Referrers() {
+								fa, ok := u.(*ssa.FieldAddr)
+								if !ok || fa.Referrers() == nil {
+									continue
+								}
+								for _, u2 := range *fa.Referrers() {
+									st, ok := u2.(*ssa.Store)
+									if !ok || st.Addr != ssa.Value(fa) || !l.Body[st.Block()] {
+										continue
+									}
+									if _, isPtr := st.Val.Type().Underlying().(*types.Pointer); !isPtr {
+										continue
+									}
+									if madeOutside(st.Val, l) {
+										fv, _ := fieldOfAddr(fa)
+										sharedField = fv.Name()
+									}
+								}
+							}
+						}
+					}
+				}
+				if sharedField != "" {
+					r.Check("loop-fresh", fmt.Sprintf("%s#%d:%s.%s", shortName(fn), idx, sn.Obj().Name(), sharedField), in.Pos(), false,
+						fmt.Sprintf("%s inserts a %s per iteration whose %s pointer is created once, outside the loop: all inserted elements share that object, so a merge or a property change on one of them shows up on all", shortName(fn), typeName(sn), sharedField))
+					continue
+				}
 				r.Check("loop-fresh", fmt.Sprintf("%s#%d:%s", shortName(fn), idx, sn.Obj().Name()), in.Pos(), !invariant,
 					fmt.Sprintf("%s inserts a %s inside a loop; the value %s", shortName(fn), typeName(sn), map[bool]string{false: "is built in the loop (each inserted element has its own properties and content)", true: "is built once outside the loop, so every inserted element shares its property pointers and paragraph storage: editing one of them changes the others"}[invariant]))
 			}
@@ -2198,4 +2230,106 @@ func ruleTokenAgreement(r *Run) {
 			fmt.Sprintf("%s recognises block openers with a compiled pattern%s", shortName(fn), map[bool]string{true: " only", false: " and, separately, with " + bad + ": the two recognisers accept different spellings, so nesting is miscounted for openers only one of them accepts"}[bad == ""]))
 	}
 	r.Min("functions_matching_block_openers", n, 3)
+}
+
+// madeOutside: v is a freshly allocated object (composite literal / new) whose allocation lies
+// outside loop l — one object for all iterations.
+func madeOutside(v ssa.Value, l *natLoop) bool {
+	switch x := v.(type) {
+	case *ssa.Alloc:
+		return x.Heap && !l.Body[x.Block()]
+	case *ssa.Phi:
+		for _, e := range x.Edges {
+			if madeOutside(e, l) {
+				return true
+			}
+		}
+	}
+	return false
+}
+
+// ---------------------------------------------------------------------------
+// R-SIZE-PRECEDENCE (C10): the sizing rules are ordered: explicit width AND height first (the
+// aspect-ratio flag is then irrelevant), otherwise one dimension with the other derived, otherwise
+// the pixel size.  In the extent computation the flag KeepAspectRatio must therefore not be
+// consulted before the explicit-size test: no read of it may dominate the test "Height > 0" that
+// follows "Width > 0".
+// ---------------------------------------------------------------------------
+
+func ruleSizePrecedence(r *Run) {
+	p := r.P
+	fn := r.mustFunc(pkgDoc, "(*Document).calculateDisplaySize")
+	if fn == nil {
+		return
+	}
+	cmpField := func(v ssa.Value) string {
+		bo, ok := v.(*ssa.BinOp)
+		if !ok || bo.Op != token.GTR {
+			return ""
+		}
+		var fv *types.Var
+		switch x := bo.X.(type) {
+		case *ssa.UnOp:
+			fv, _ = fieldOfAddr(x.X)
+		case *ssa.Field:
+			fv, _ = fieldOfVal(x)
+		}
+		if fv != nil && (fieldIs(p, fv, pkgDoc, "ImageSize", "Width") || fieldIs(p, fv, pkgDoc, "ImageSize", "Height")) {
+			return fv.Name()
+		}
+		return ""
+	}
+	// explicit test: a block testing Height>0 inside the true region of a block testing Width>0 (or vice versa)
+	var explicit []*ssa.BasicBlock
+	for _, b := range fn.Blocks {
+		if len(b.Instrs) == 0 {
+			continue
+		}
+		iff, ok := b.Instrs[len(b.Instrs)-1].(*ssa.If)
+		if !ok {
+			continue
+		}
+		f1 := cmpField(iff.Cond)
+		if f1 == "" {
+			continue
+		}
+		t := b.Succs[0]
+		if len(t.Instrs) == 0 {
+			continue
+		}
+		if iff2, ok := t.Instrs[len(t.Instrs)-1].(*ssa.If); ok && len(t.Preds) == 1 {
+			if f2 := cmpField(iff2.Cond); f2 != "" && f2 != f1 {
+				explicit = append(explicit, t)
+			}
+		}
+	}
+	var flagLoads []ssa.Instruction
+	allInstrs(fn, func(in ssa.Instruction) {
+		var fv *types.Var
+		switch x := in.(type) {
+		case *ssa.FieldAddr:
+			fv, _ = fieldOfAddr(x)
+		case *ssa.Field:
+			fv, _ = fieldOfVal(x)
+		}
+		if fieldIs(p, fv, pkgDoc, "ImageSize", "KeepAspectRatio") {
+			flagLoads = append(flagLoads, in)
+		}
+	})
+	if len(explicit) == 0 {
+		r.Check("size-precedence", shortName(fn), fn.Pos(), false,
+			"no test of the form `Width > 0 && Height > 0` (explicit size) was found at the head of the sizing decision: the explicit-size rule must come first")
+		return
+	}
+	bad := ""
+	for _, l := range flagLoads {
+		for _, e := range explicit {
+			if l.Block() != e && l.Block().Dominates(e) {
+				bad = p.pos(l.Pos())
+			}
+		}
+	}
+	r.Check("size-precedence", shortName(fn), fn.Pos(), bad == "",
+		fmt.Sprintf("%s: %s", shortName(fn), map[bool]string{true: "the explicit width-and-height rule is decided before the aspect-ratio flag is looked at", false: "KeepAspectRatio is consulted (" + bad + ") before the explicit width-and-height test: with both dimensions given and the flag set, one of the requested dimensions is ignored and re-derived from the pixel ratio"}[bad == ""]))
+	r.Count("aspect_flag_reads", len(flagLoads))
 }
